@@ -307,7 +307,7 @@ inductive WPoll (α : Type) where
   | ready (a : α)
   | err (e : WErr)
   | pending
-  deriving Repr
+  deriving Repr, DecidableEq
 
 /-- `BytesArray::pop_chunk` loop of `Send::write` (quinn-proto, the `write_chunks` contract): whole chunks
     while they fit (empty chunks are consumed too), then a partial chunk which is advanced in place.
@@ -431,7 +431,7 @@ inductive RPoll (α : Type) where
   | ready (a : Option α)      -- `Ok(Some a)` / `Ok(None)` = end of stream
   | err (e : RErr)
   | pending
-  deriving Repr
+  deriving Repr, DecidableEq
 
 /-- the closure of `poll_read_impl`: fill a buffer of `cap > 0` bytes from successive chunks.
     `fuel` bounds the number of `next` calls (each returns ≥ 1 byte, so `cap + 1` suffices). -/
@@ -505,28 +505,52 @@ def pollReadChunk (max : Nat) (rs : RS) (error : Option Err) (s : Src) : RPoll B
     let (p, rs') := execRead rs error st
     (p, rs', s')
 
+/-- one `read_chunks(bufs)` poll with `bufs.len() = n` -/
+def pollReadChunks (n : Nat) (rs : RS) (error : Option Err) (s : Src) : RPoll (List Bytes) × RS × Src :=
+  if n = 0 then (.ready (some []), rs, s) else
+  if rs.allDataRead then (.ready none, rs, s) else
+  match rs.reset with
+  | some c =>
+    let (p, rs') := execRead (α := List Bytes) rs error (.failedReset none c)
+    (p, rs', s)
+  | none =>
+    let (st, s') := chunksLoop n (n + 1) [] s
+    let (p, rs') := execRead rs error st
+    (p, rs', s')
+
 /-- what the environment does between two polls of a reader -/
 inductive RStep where
   | deliver (seg : Bytes)     -- quinn-proto buffered the next in-order segment
   | finish                    -- … and learnt that the stream ends there
   | read (cap : Nat)          -- the reader task polls `read` with a `cap`-byte buffer
   | readChunk (max : Nat)     -- … or `read_chunk(max, true)`
+  | readChunks (n : Nat)      -- … or `read_chunks` with `n` buffers
   deriving Repr
 
 structure Reader where
   rs : RS
   src : Src
-  got : Bytes                 -- everything returned so far, in order
+  rparts : List Bytes         -- every piece returned so far, LAST FIRST
   eos : Nat                   -- how many polls returned end-of-stream
   pendings : Nat              -- how many polls returned `Pending`
   errs : Nat
   deriving Repr
 
+/-- everything returned so far, in order -/
+def Reader.got (r : Reader) : Bytes := r.rparts.reverse.flatten
+
 def Reader.init : Reader := ⟨RS.init, ⟨[], false, none⟩, [], 0, 0, 0⟩
 
 def Reader.apply (r : Reader) (p : RPoll Bytes × RS × Src) : Reader :=
   match p with
-  | (.ready (some b), rs, s) => { r with rs := rs, src := s, got := r.got ++ b }
+  | (.ready (some b), rs, s) => { r with rs := rs, src := s, rparts := b :: r.rparts }
+  | (.ready none, rs, s) => { r with rs := rs, src := s, eos := r.eos + 1 }
+  | (.pending, rs, s) => { r with rs := rs, src := s, pendings := r.pendings + 1 }
+  | (.err _, rs, s) => { r with rs := rs, src := s, errs := r.errs + 1 }
+
+def Reader.applyChunks (r : Reader) (p : RPoll (List Bytes) × RS × Src) : Reader :=
+  match p with
+  | (.ready (some bs), rs, s) => { r with rs := rs, src := s, rparts := bs.reverse ++ r.rparts }
   | (.ready none, rs, s) => { r with rs := rs, src := s, eos := r.eos + 1 }
   | (.pending, rs, s) => { r with rs := rs, src := s, pendings := r.pendings + 1 }
   | (.err _, rs, s) => { r with rs := rs, src := s, errs := r.errs + 1 }
@@ -537,16 +561,18 @@ def Reader.step (r : Reader) : RStep → Reader
   | .finish => { r with src := { r.src with fin := true } }
   | .read cap => r.apply (pollRead cap r.rs none r.src)
   | .readChunk max => r.apply (pollReadChunk max r.rs none r.src)
+  | .readChunks n => r.applyChunks (pollReadChunks n r.rs none r.src)
 
 def Reader.run (r : Reader) : List RStep → Reader
   | [] => r
   | x :: xs => (r.step x).run xs
 
-/-- bytes handed to the stream by the environment so far -/
-def delivered : List RStep → Bytes
+/-- bytes handed to the stream by the environment before it learnt the end of the stream -/
+def deliveredBefore : List RStep → Bytes
   | [] => []
-  | .deliver seg :: xs => seg ++ delivered xs
-  | _ :: xs => delivered xs
+  | .deliver seg :: xs => seg ++ deliveredBefore xs
+  | .finish :: _ => []
+  | _ :: xs => deliveredBefore xs
 
 /-- `RecvStream::read_to_end`'s buffer assembly from `(offset, bytes)` chunks read UNORDERED:
     `start = min offset`, `end = max (offset + len)`, a zeroed buffer of `end - start`, each chunk copied to
